@@ -295,7 +295,7 @@ def execOp (s : State) (me : Nat) (op : Op) (rest : List Op) : State × Ctl :=
           blockIn (s1.setR me { s1.R me with state := .suspend }) me op rest
       else finish s me op rest .fail
   | .create d now =>
-      -- assumption of the package: no routine is created while cleanup() iterates the cabinet
+      -- `create()` returns a null token while `cleanup()` is running (patches/C18-04)
       if s.inCleanup then finish s me op rest .fail
       else finish (create s d now) me op rest .ok
   | .cancel t =>
